@@ -21,7 +21,8 @@
 (*                       (code: C + 1)                                     *)
 (*   SyncMinListLen      minimal bookkeeper list length header_sync takes  *)
 (*                       (code: 3*len >= 2*N); it verifies len signatures  *)
-(* Named deviation: MaskByPosition (see SigBase!VerifyMulti).              *)
+(* Named deviation: MaskByPosition (see SigBase!VerifyMulti); repaired by   *)
+(* fix commit 900ecb87, the checks run with it FALSE.                       *)
 (***************************************************************************)
 EXTENDS SigBase
 
